@@ -93,6 +93,14 @@ def doc_cases(rng, n, prefix, delims=None, kinds=None, p_unwrap=0.3, p_mut=0.15,
             dg.tagline_inline = 0.08
             dg.multiline_close = 0.04
         s = dg.document(kinds or G.ALL_KINDS, p_unwrap)
+        if rng.random() < 0.15 and isinstance(cfg.now, int):
+            # `to` values within a few hours of the current instant, written as wall-clock time at the configured
+            # offset or at UTC: whether they are expired depends on reading them AT the offset
+            def near(mo):
+                base = cfg.now + rng.choice([-1, 0, 1, -3600, 3600, -5 * 3600, 5 * 3600, -10 * 3600, 10 * 3600])
+                shift = rng.choice([0, 0, G.offset_minutes(cfg.offset) * 60])
+                return 'to="' + G.render_to(base + shift) + '"'
+            s = re.sub(r'to="2[01]00-01-01 00:00:00"', near, s)
         mutated = rng.random() < p_mut
         if mutated:
             s = G.mutate(rng, s, ds, de)
@@ -654,6 +662,21 @@ def weird_tag_cases(rng, n, prefix="wtag"):
     return cases, meta
 
 
+def bom_cases(rng, n, prefix="bom"):
+    """documents that begin with a byte order mark (U+FEFF), with multi-byte lines inside unwrap-blocks"""
+    cases, meta = [], {}
+    for i in range(n):
+        ds, de = rng.choice(G.DELIMS)
+        cfg = G.Cfg("tl", "rm", "+00:00", G.NOW, ("x",))
+        dg = G.DocGen(rng, ds, de, cfg, safe_text=True)
+        s = "\ufeff" + dg.document(["ready_tl", "ready_rm", "pending_tl"], 0.7)
+        s = s.replace("foo", "日本語").replace("x = 1", "二行目")
+        cid = f"{prefix}{i}"
+        cases.append(G.dcase(cid, ds, de, s, cfg))
+        meta[cid] = {"stream": "bom", "mutated": True, "strict": False}
+    return cases, meta
+
+
 def many_comment_cases(rng, n, prefix="mc"):
     """documents with many ordinary comments in the tool's delimiters (tags that are never closed, or
     that do not parse to elements) in front of ready / pending elements"""
@@ -852,7 +875,8 @@ def gen_docs(rng, tier, n_quick=2500, n_thorough=40000, **kw):
     return merge(corpus_cases(), ex, doc_cases(rng, n, "d", **kw), wrapper_tag_cases(rng, 300 if tier == "quick" else 3000, "wtg"),
                  many_comment_cases(rng, 12 if tier == "quick" else 200),
                  control_char_cases(rng, 60 if tier == "quick" else 1000),
-                 weird_tag_cases(rng, 400 if tier == "quick" else 6000))
+                 weird_tag_cases(rng, 400 if tier == "quick" else 6000), bom_cases(rng, 80 if tier == "quick" else 1500),
+                 nameless_marker_cases("nmg"))
 
 
 TAG_VALUES = ["", "v", "a b", "x=y", "it's", 'say "hi"', "skip", "unwrap-block", "a\nb", "<", "/* <", "to", "あ", "  ", "name=x skip",
